@@ -9,8 +9,25 @@ import sys
 import traceback
 
 
+def _die_with_parent() -> None:
+    """Exit hard when the parent goes away (a worker stuck in native code must not linger)."""
+    import threading
+    import time
+
+    parent = os.getppid()
+
+    def watch() -> None:
+        while True:
+            time.sleep(2.0)
+            if os.getppid() != parent:
+                os._exit(3)
+
+    threading.Thread(target=watch, daemon=True).start()
+
+
 def main() -> None:
     os.environ.setdefault("JAX_PLATFORMS", "cpu")
+    _die_with_parent()
     out = sys.stdout
     # keep library prints away from the protocol channel
     sys.stdout = sys.stderr
